@@ -221,6 +221,8 @@ def modelStep (d : DState) (op : List String) (obs : List (List String)) : DStat
       | _ => none
     ({ d with xend := lines }, [])
   | ["c", "end"] => (d, d.xend)
+  | "x" :: _ :: "P" :: _ => (d, [])
+  | "c" :: _ :: "P" :: _ => (d, [])
   | "x" :: idx :: words =>
     match parseStmt words with
     | none => (d, ["call UNPARSED"])
@@ -394,7 +396,9 @@ def specGo (sh : Shadow) : List (Nat × List String × List (List String)) → L
       let strip := fun (l : List (List String)) => l.map (·.drop 1)
       if strip xf == strip cf then none
       else some s!"end of scenario: C run {describeObs cf} / C++ run {describeObs xf}"
-    | _, none => some "the C run did not finish (crash)"
+    | _, none =>
+      some (label (if sh.dangling then some "removeAll-on-scope-frees-adaptors-of-other-scopes" else none)
+              "the C run did not finish (crash)")
     | none, _ => some "the C++ run did not finish (crash)"
   | (i, w, xo) :: xs, (j, w', co) :: cs, xr, cr =>
     let f := if cr.fin.isNone && cs.isEmpty && sh.dangling then some "removeAll-on-scope-frees-adaptors-of-other-scopes"
@@ -425,10 +429,34 @@ def specGo (sh : Shadow) : List (Nat × List String × List (List String)) → L
     | none => some (label (findingOf sh w) s!"op#{i} {" ".intercalate w}: the C run did not finish (crash)")
   | [], (j, w, _) :: _, _, _ => some (label (findingOf sh w) s!"op#{j} {" ".intercalate w}: executed by the C run only")
 
+/-- the statement of an operation, arguments left as tokens (the class `Aligned` does not look at values) -/
+def parseStmtRaw : List String → Option CStmt
+  | ["M0"] => some .mockC
+  | ["M", s] => some (.mockScope (if s = "-" then "" else s))
+  | t :: field :: args => (tblOf t).map (fun tbl => .call tbl field (args.map .tok))
+  | _ => none
+
+def isPragma (w : List String) : Bool := match w with | "P" :: _ => true | _ => false
+
 def specAll (ops : List Proto.Op) : Option String :=
-  let xr := collect ops "x"
-  let cr := collect ops "c"
-  specGo {} xr.ops cr.ops xr cr
+  let xr0 := collect ops "x"
+  let cr0 := collect ops "c"
+  let marked := xr0.ops.any (fun o => o.2.1 == ["P", "aligned"])
+  let xr := { xr0 with ops := xr0.ops.filter (fun o => !isPragma o.2.1) }
+  let cr := { cr0 with ops := cr0.ops.filter (fun o => !isPragma o.2.1) }
+  -- the decidable class of `Props/C19.lean` (`aligned_implies_runOk`), computed on the executed statements
+  let inClass := Aligned (xr.ops.filterMap (fun o => parseStmtRaw o.2.1))
+  if marked && !inClass then some "the generator marked this scenario `aligned` but it is not in the class Aligned"
+  else
+    match specGo {} xr.ops cr.ops xr cr with
+    | none => none
+    | some msg =>
+      -- inside the class the refinement theorem applies: a divergence there is never one of the two alignment
+      -- findings (the third finding is about the lifetime of the adaptor nodes, which the model does not carry)
+      if inClass then
+        some (((msg.replace "finding=support-getter" "in-class-label=support-getter").replace
+                "finding=actual-has" "in-class-label=actual-has") ++ " [scenario is in the class Aligned]")
+      else some msg
 
 def main : IO Unit :=
   Proto.driverMain { init := ({} : DState), step := modelStep, spec := specAll }
